@@ -15,7 +15,7 @@ func init() {
 			"(R2) from the point the recording succeeded, every path of reliablyPublishTransaction to an error return, and every path of publishTransaction from the send to an error return, passes an update that reaches Store.RemoveUnminedTx; " +
 			"(R3) the accepted answers (no error, 'already in mempool') never pass a removal, and the classification uses errors.Is on the chain package's sentinels; " +
 			"(R4) resendUnminedTxs iterates, completely and in order, over the slice returned by Store.UnminedTxs, whose value is DependencySort applied to a map filled from every record of the unmined bucket, offering each element to publishTransaction, and is started from the rescan-finished handler; " +
-			"(R5) RemoveUnminedTx removes transitively (shared rule). NOT decided: equality of balances before/after, descendants' amounts. Scope: publishTransaction's own 'no chain client' exit before the send is not a hand-over failure on the rebroadcast path and is out of R2's scope.",
+			"(R5) RemoveUnminedTx removes transitively (shared rule). NOT decided: equality of balances before/after, descendants' amounts. On the first broadcast the function reliablyPublishTransaction hands the recorded transaction to cannot fail before the send without removing it; on the rebroadcast path publishTransaction's own 'no chain client' exit is not a hand-over failure and stays out of R2's scope.",
 		Assumptions: []string{"call graph over-approximates callees; SendRawTransaction implementations are the chain package's clients"},
 		Run:         runC20,
 	})
@@ -71,6 +71,7 @@ func errIsSentinel(from *ssa.BasicBlock, si int) (string, bool, bool) {
 func runC20(c *Ctx) {
 	checkPublish(c, func(n string) string { return "C20-" + n })
 	checkErrorTablesAgree(c, "C20-R3")
+	checkBackendErrorIsTheHaystack(c, "C20-R3")
 	runC20Rest(c)
 }
 
@@ -143,16 +144,91 @@ func checkPublish(c *Ctx, rn func(string) string) {
 			c.Check(rn("R2"), "failed-handover-forgets:reliablyPublishTransaction", lastPos(b), len(hits) == 0, detail)
 		}
 	}
-	// R2b: publishTransaction: from the send, every error return passes a removal
+	// R2b: publishTransaction: from the send, every error return passes a removal. The send itself may sit in a
+	// same-package function publishTransaction hands the transaction on to (one that takes the backend as an argument)
 	var send *ssa.Call
-	for _, call := range callsOf(pub) {
-		if cc, ok := call.(*ssa.Call); ok && isInvokeNamed("SendRawTransaction")(cc) {
-			send = cc
+	findSend := func(f *ssa.Function) *ssa.Call {
+		for _, call := range callsOf(f) {
+			if cc, ok := call.(*ssa.Call); ok && isInvokeNamed("SendRawTransaction")(cc) {
+				return cc
+			}
 		}
+		return nil
+	}
+	pubTop := pub
+	for depth := 0; depth < 3 && send == nil; depth++ {
+		if send = findSend(pub); send != nil {
+			break
+		}
+		var next *ssa.Function
+		for _, ci := range callsOf(pub) {
+			if cc, ok := ci.(*ssa.Call); ok {
+				if g := cc.Call.StaticCallee(); g != nil && g != pub && fnPkgPath(g) == fnPkgPath(pub) && len(g.Blocks) > 0 && isSend(cc) {
+					next = g
+				}
+			}
+		}
+		if next == nil {
+			break
+		}
+		pub = next
 	}
 	if send == nil {
-		c.Check(rn("R2"), "send-site", pub.Pos(), false, "publishTransaction has no SendRawTransaction call (undecided)")
+		c.Check(rn("R2"), "send-site", pubTop.Pos(), false, "publishTransaction has no SendRawTransaction call (undecided)")
 		return
+	}
+	// R2c: on the first broadcast the transaction has been recorded when reliablyPublishTransaction hands it on: the
+	// function it is handed to must not be able to fail BEFORE the send without forgetting it (a second lookup of the
+	// chain client fails when the wallet was stopped in between: the caller is told the broadcast failed, the
+	// transaction stays recorded, its inputs stay spent and it is offered again after the next start)
+	{
+		var firstBad func(g *ssa.Function, depth int) ssa.Instruction
+		firstBad = func(g *ssa.Function, depth int) ssa.Instruction {
+			var bad ssa.Instruction
+			q := &PathQuery{Fn: g, Barrier: func(ins ssa.Instruction) bool {
+				if isRemoval(ins) || isInvokeNamed("SendRawTransaction")(ins) {
+					return true
+				}
+				if cc, ok := ins.(*ssa.Call); ok && isSend(cc) {
+					if h := cc.Call.StaticCallee(); h != nil && h != g && len(h.Blocks) > 0 && depth < 3 {
+						if b := firstBad(h, depth+1); b != nil {
+							bad = b
+						}
+					}
+					return true
+				}
+				return false
+			}}
+			q.Target = func(ins ssa.Instruction, via *ssa.BasicBlock) bool {
+				r, ok := ins.(*ssa.Return)
+				return ok && p.classifyReturn(r, via) != retSuccess
+			}
+			if hits := exploreFromBlock(q, g.Blocks[0], nil); len(hits) > 0 {
+				return hits[0].Ins
+			}
+			return bad
+		}
+		nHand := 0
+		for _, b := range rel.Blocks {
+			for _, ins := range b.Instrs {
+				cc, ok := ins.(*ssa.Call)
+				if !ok || !isSend(cc) || ins == ssa.Instruction(recording) {
+					continue
+				}
+				g := cc.Call.StaticCallee()
+				if g == nil || len(g.Blocks) == 0 {
+					continue
+				}
+				nHand++
+				bad := firstBad(g, 0)
+				detail := ""
+				if bad != nil {
+					detail = "reliablyPublishTransaction hands the recorded transaction to " + fnName(g) + ", which can return an error at " + p.Pos(bad.Pos()) + " before it reached the send and without removing the transaction: the failed attempt leaves the transaction recorded (inputs spent, re-offered after restart)"
+				}
+				c.Check(rn("R2"), "recorded-transaction-not-failed-before-send", cc.Pos(), bad == nil, detail)
+			}
+		}
+		c.Floor(rn("R2"), "hand-over calls in reliablyPublishTransaction", nHand, 1)
 	}
 	{
 		q := &PathQuery{Fn: pub, Barrier: isRemoval}
@@ -215,6 +291,10 @@ func checkPublish(c *Ctx, rn func(string) string) {
 
 func runC20Rest(c *Ctx) {
 	p := c.P
+	// forgetting a rejected transaction restores the spendable set as it was: it must not end a lease held on an input
+	c.Borrow(runC12, "C12-R5", "C20-R5", func(k string) bool {
+		return strings.HasPrefix(k, "lease-released-only-by-owner-expiry-or-confirmed-spend") || strings.HasPrefix(k, "lease-bucket-writer")
+	})
 	pub := walletFn(c, "C20-R4", "publishTransaction")
 	if pub == nil {
 		return
@@ -458,4 +538,55 @@ func runC20Rest(c *Ctx) {
 	checkSpendPasses(c, "C20-R5", false)
 	// removing one rejected spender of a coin keeps all its other recorded spenders
 	checkNoAccumulatorReset(c, "C20-R5", "wtxmgr")
+}
+
+// checkBackendErrorIsTheHaystack: the backend's answer is classified by asking whether ITS text contains one of the
+// known messages (the answer carries a code prefix and details around the reject reason). At every matching call in the
+// error-mapping functions the searched error is the function's own error parameter and the pattern is not derived from
+// it. Swapped, a real answer ("-26: txn-already-in-mempool") is never contained in the bare pattern: an accepted
+// transaction is classified as rejected and forgotten while it sits in the node's mempool.
+func checkBackendErrorIsTheHaystack(c *Ctx, rule string) {
+	p := c.P
+	m := p.Func("chain", "", "matchErrStr")
+	if m == nil {
+		c.Unresolved(rule, "chain.matchErrStr")
+		return
+	}
+	n := 0
+	for _, fn := range p.FuncsIn("chain") {
+		for _, ci := range callsOf(fn) {
+			call, ok := ci.(*ssa.Call)
+			if !ok || !p.isCallTo(call, m) || len(call.Call.Args) != 2 {
+				continue
+			}
+			top := outermost(fn)
+			var errPrm *ssa.Parameter
+			for _, prm := range top.Params {
+				if isErrorType(prm.Type()) {
+					errPrm = prm
+				}
+			}
+			if errPrm == nil {
+				continue
+			}
+			n++
+			hay := stripConv(call.Call.Args[0])
+			if fv, isFV := hay.(*ssa.FreeVar); isFV {
+				hay = freeVarRoot(fv)
+			}
+			okHay := hay == ssa.Value(errPrm)
+			okPat := true
+			for _, o := range (&Slicer{P: p}).Origins(call.Call.Args[1]) {
+				if o == ssa.Value(errPrm) {
+					okPat = false
+				}
+				if cc, isCall := o.(*ssa.Call); isCall && cc.Call.IsInvoke() && stripConv(cc.Call.Value) == ssa.Value(errPrm) {
+					okPat = false
+				}
+			}
+			c.Check(rule, "backend-error-is-the-searched-text:"+fnName(top), call.Pos(), okHay && okPat,
+				fnName(top)+" asks whether a known message contains the backend's answer instead of the other way round: answers that carry a code or details around the reject reason (\"-26: txn-already-in-mempool\") never match, so an accepted or already-known transaction is treated as rejected and removed from the wallet")
+		}
+	}
+	c.Floor(rule, "backend error classifications by message", n, 5)
 }
